@@ -562,6 +562,10 @@ func checkCSC(e *env) {
 	}
 	e.eachCall(func(task int, spec CallSpec, rec *sched.CallRec, res *CallResult) {
 		if res == nil {
+			if (!rec.Done || rec.Hung) && spec.Kind != "do" {
+				// a cached read that never returns is waiting on a flight nobody will ever complete or cancel
+				out.violate("C09", "cached-read-never-returned", "task %d call %d (%s %q) started at step %d never returned although every fault was healed and the run drained (%s)", task, rec.Index, spec.Kind, truncArgv(firstArgv(spec)), rec.StartStep, out.Reason)
+			}
 			return
 		}
 		switch spec.Kind {
